@@ -12,6 +12,8 @@
 //             map <s> | unmap <s> all|<nframes> | waitidle | sleep <n> | shutdown | expect stop|abort
 // stdout: API / DRV / MON lines, ORACLE lines (implementation-only property oracles), END <result>.
 #define _GNU_SOURCE
+#include <sys/prctl.h>
+#include <signal.h>
 #include "acquire_small_ring.h" // the real acquire.c
 #include "detsched.h"
 #include "mockdrv.h"
@@ -585,7 +587,7 @@ int main(void)
         } else if (!strncmp(p, "run ", 4)) {
             fflush(stdout);
             pid_t pid = fork();
-            if (pid == 0) run_child(p + 4);
+            if (pid == 0) { prctl(PR_SET_PDEATHSIG, SIGKILL); run_child(p + 4); }
             int st = 0;
             waitpid(pid, &st, 0);
             if (WIFSIGNALED(st)) printf("END CRASH signal=%d\n", WTERMSIG(st));
